@@ -1,8 +1,46 @@
 import Rbp.Model.VarInt
+import Rbp.Proofs.Record
+/-!
+# C03 — a block is read from the file and offset its index record names, wherever it is
+-/
 namespace Rbp.Props.C03
+open Run
+
 /-- Bitcoin Core's VarInt (MSB base-128 with the +1 carry), as `index::read_varint` decodes it with both overflow guards:
     the decoder inverts the encoder for every u64 value, whatever follows in the stream -/
 theorem readVarInt_enc (n : Nat) (t : List UInt8) (hn : n ≤ 18446744073709551615) :
     VI.dec 0 (VI.enc n ++ t) = .ok n t :=
   VI.dec_enc n t hn
+
+/-- index records: decoding what Core writes (`nFile` iff HAVE_DATA|HAVE_UNDO, `nDataPos` iff HAVE_DATA, `nUndoPos` iff
+    HAVE_UNDO, then the header) gives back hash, height, status, file number, data offset and the header's prev-hash — for
+    every status combination and every u64 value, i.e. every byte width of the VarInts -/
+theorem record_roundtrip (hash : W.Bytes) (hh : hash.length = 32) (r : IndexRec) (hk : r.ok) :
+    decodeRecFull (0x62 :: hash) r.enc =
+      .ok ⟨r.client, r.ntx, ⟨hash, r.prev, r.height, r.status,
+        if r.status &&& 24 > 0 then r.file else 0, if r.status &&& 8 > 0 then r.dataPos else 0⟩⟩ :=
+  Run.record_roundtrip hash hh r hk
+
+/-- positional read: when the bytes at `offset - 4` are the LE32 length prefix followed by the encoding of a well-formed block,
+    that block (and that prefix) is what is delivered — whatever follows it in the file -/
+theorem readAt_block (coin : Coin) (size : Nat) (hs : size < 256 ^ 4) (b : W.Block) (hb : b.ok coin.auxpow) (rest : W.Bytes) :
+    parseAt coin (W.toLE 4 size ++ b.enc ++ rest) = .ok (size, b.toR) :=
+  parseAt_block coin size hs b hb rest
+
+/-- and nothing *before* `offset - 4` matters: two files that agree from there on deliver the same result for that offset
+    (other blocks, garbage, holes, unindexed blocks in front are invisible) -/
+theorem layout_independent_read (coin : Coin) (key : Option W.Bytes) (f g : BlkFile) (off : Nat)
+    (h : bytesFrom f (off - 4) = bytesFrom g (off - 4)) : readAt coin key f off = readAt coin key g off :=
+  readAt_depends_on_suffix coin key f g off h
+
+/-- keys that do not start with `b` never enter the table (`f`, `l`, `F`, `R`, … records are ignored) -/
+theorem foreign_keys_ignored (k v : W.Bytes) (b : UInt8) (rest : W.Bytes) (hk : k = b :: rest) (hb : b ≠ 0x62)
+    (l : List (W.Bytes × W.Bytes)) (acc : List Wk.Rec) : collect.go ((k, v) :: l) acc = collect.go l acc := by
+  subst hk
+  simp [collect.go, hb]
+
+/-- non-vacuity: both sides of the 1/2-byte VarInt boundary, the 2/3-byte boundary, and the `+1` carry -/
+example : VI.dec 0 [0x7f] = .ok 127 [] ∧ VI.dec 0 [0x80, 0x00] = .ok 128 [] ∧ VI.dec 0 [0xff, 0x7f] = .ok 16511 [] ∧
+    VI.dec 0 [0x80, 0x80, 0x00] = .ok 16512 [] := by decide
+
 end Rbp.Props.C03
